@@ -120,6 +120,7 @@ type Run struct {
 	Stability []string // C08: differences between snapshot and live object
 	HarnessErr string
 	BubbleDeadlock string
+	free *freeState
 	allCancels []context.CancelFunc
 	start time.Time
 }
@@ -170,6 +171,17 @@ func (r *Run) dial(ctx context.Context) (net.Conn, error) {
 		c.failWriteAt = 3 // handshake response, SET query, dump request
 	}
 	m.greet()
+	if r.free != nil {
+		c.auto, c.run = true, r
+		if r.dialPlan == stopHandshakeFIN && r.att != nil {
+			cut := r.att.Plan.HandshakeCut
+			if cut < len(c.wire) {
+				c.wire = c.wire[:cut]
+			}
+			m.tail = stopFIN
+		}
+		c.flushAuto()
+	}
 	r.master = m
 	r.conn = c
 	return c, nil
@@ -266,9 +278,15 @@ func (r *Run) MysqlTable(name gobinlog.MysqlTableName) (gobinlog.MysqlTable, err
 	if r.att != nil {
 		r.att.MapperCalls = append(r.att.MapperCalls, call)
 	}
-	r.parkedM = call
-	r.mu.Unlock()
-	v := <-call.release
+	var v mapperVerdict
+	if r.free != nil {
+		v = r.freeMapperVerdict(len(r.att.MapperCalls))
+		r.mu.Unlock()
+	} else {
+		r.parkedM = call
+		r.mu.Unlock()
+		v = <-call.release
+	}
 	r.mu.Lock()
 	call.Returned = true
 	r.mu.Unlock()
@@ -659,18 +677,18 @@ func (r *Run) runAttempt(idx int, plan AttemptPlan) bool {
 				if cut > wire {
 					cut = wire
 				}
+				fire("handshake-fin")
 				conn.deliver(cut)
 				conn.mu.Lock()
 				conn.wire = nil
 				conn.mu.Unlock()
 				conn.fin()
 				hsCutDone = true
-				fire("handshake-fin")
 				continue
 			}
 			if plan.Stop == stopCancelInHandshake && !causeFired && (wire == 0 || r.sch.Chance(1, 2)) {
-				r.cancel()
 				fire("cancel")
+				r.cancel()
 				continue
 			}
 			if wire > 0 {
@@ -679,10 +697,10 @@ func (r *Run) runAttempt(idx int, plan AttemptPlan) bool {
 			}
 			if master.tail == stopFIN && !tailApplied {
 				tailApplied = true
-				conn.fin()
 				if plan.Stop == stopAuthErr {
 					fire("auth-error")
 				}
+				conn.fin()
 				continue
 			}
 			if !causeFired && plan.Stop.connPhase() {
@@ -764,8 +782,8 @@ func (r *Run) runAttempt(idx int, plan AttemptPlan) bool {
 				ready = mid || wire == 0
 			}
 			if ready {
-				r.cancel()
 				fire("cancel")
+				r.cancel()
 				continue
 			}
 		}
@@ -834,14 +852,14 @@ func (r *Run) runAttempt(idx int, plan AttemptPlan) bool {
 		// ---- nothing benign is enabled --------------------------------------
 		if conn != nil && master != nil && wire == 0 && master.tail != stopNone && !tailApplied {
 			tailApplied = true
+			if plan.Stop == stopFIN || plan.Stop == stopRST || plan.Stop == stopShortPacket {
+				fire(plan.Stop.String())
+			}
 			switch master.tail {
 			case stopFIN:
 				conn.fin()
 			case stopRST:
 				conn.reset()
-			}
-			if plan.Stop == stopFIN || plan.Stop == stopRST || plan.Stop == stopShortPacket {
-				fire(plan.Stop.String())
 			}
 			continue
 		}
@@ -849,8 +867,8 @@ func (r *Run) runAttempt(idx int, plan AttemptPlan) bool {
 			// the attempt is idle: the planned cause can no longer happen (or the
 			// attempt is a clean one): end it by the caller's cancel
 			if dumping || conn == nil || idleRounds > 0 {
-				r.cancel()
 				fire("cancel")
+				r.cancel()
 				continue
 			}
 			idleRounds++
